@@ -137,6 +137,33 @@ def independent_longitude(mon, y, k, s, e):
                        "sun_longitude_with_iau1980_nutation": lon})
 
 
+def option_order(mon, y, k, s, e):
+    """The same instant read without nutation, with it, and without it again,
+    back to back: the reading with nutation still sits on the season's
+    longitude, and the two without it are the same number (an answer kept
+    from the previous call under the epoch alone shows here)."""
+    from pymeeus.Sun import Sun
+    try:
+        l0 = Sun.apparent_geocentric_position(e, nutation=False)[0]()
+        l1 = Sun.apparent_geocentric_position(e)[0]()
+        l2 = Sun.apparent_geocentric_position(e, nutation=False)[0]()
+        l3 = Sun.apparent_geocentric_position(e, nutation=True)[0]()
+        from vpm.oracles import nutation as N
+        dpsi = N.nutation(e.jde())[0] / 3600.0
+    except Exception as ex:
+        mon.dev("season.longitude(after-other-option)",
+                {"year": y, "season": s, "raised": repr(ex)})
+        return
+    mon.cls("season-read-in-both-nutation-options", ("opt", y, k))
+    mon.check("season.longitude(after-other-option)",
+              abs(wrap(l1 - 90.0 * k)) <= 1e-5 and l3 == l1 and l2 == l0
+              and abs(wrap(l1 - l0) - dpsi) <= 5e-6,
+              lambda: {"year": y, "season": s, "jde": e.jde(),
+                       "nutation=False": l0, "default": l1,
+                       "nutation=False again": l2, "nutation=True": l3,
+                       "iau1980_nutation_deg": dpsi})
+
+
 def in_year(mon, y, k, s, jde):
     """The instant belongs to the year that was asked for: within 5 days of
     the season's date in 2000 moved by mean tropical years (the slow change
@@ -211,6 +238,7 @@ def case_seasons(mon, lo, hi):
                           {"year": y, "season": s, "jde": e.jde(),
                            "sun_longitude": lon})
                 independent_longitude(mon, y, k, s, e)
+                option_order(mon, y, k, s, e)
                 if y in (-1000, 999, 1000, 3000):
                     mon.cls("year-at-table-boundary", ("season", y, s),
                             [y, s, e.jde()])
